@@ -1,16 +1,36 @@
 /-
-  LockSteps: the configuration machine of `Config` at lock granularity (C12).
+  LockSteps: the configuration machine of `Config` at lock granularity (C12), extended with the
+  subscriber side of `NxscopeHandler`.
 
   One `AOp` is one `with self._channels_lock:` block of comm.py, i.e. what the lock makes atomic
   with respect to the other application threads and the stream thread:
     `ch_enable / ch_disable / ch_divider`      one block each (same as the `Config.Op`),
-    `channels_write`                           TWO blocks on a device with divider support —
-                                               `_nxslib_channels_div` (diff → request → ACK → update)
-                                               and then `_nxslib_channels_enable` — and one block
-                                               (enable only) otherwise,
+    `ch_enable_all / ch_disable_all`           NOT one block: `chmax` calls of `ch_enable(c)` /
+                                               `ch_disable(c)`, one block each (`enableAllBlock`, …),
+    `channels_default_cfg`                     `ch_disable_all` and then ONE block that zeroes the
+                                               requested dividers (`defaultCfgBlock`),
+    `channels_write`                           on a device without channels NO block at all (F18: it
+                                               returns before touching the lock); otherwise TWO blocks on
+                                               a device with divider support — `_nxslib_channels_div`
+                                               (diff → request → ACK → update) and then
+                                               `_nxslib_channels_enable` — and one block (enable only)
+                                               without it (`writeBlock`),
     `ch_is_enabled / ch_div_get`               one block that changes nothing (`query`).
   Another thread can therefore run between the two halves of a write; `Config.step (.write a b)` is
   the special case in which nobody does (`astep_write`).
+
+  One `XOp` is one critical section of EITHER lock (channels lock / queue lock); the two locks are never
+  nested into each other:
+    `cfg a`          a channels-lock block as above,
+    `sub ch`         `stream_sub(ch)`: under the queue lock, a fresh queue is appended to `_sub_q[ch]`,
+    `unsub q`        `stream_unsub(q)`: under the queue lock, `q` is removed from every channel's list,
+    `fanCheck ch`    the stream thread's `ch_is_enabled(ch)` for one sample of the frame it is fanning
+                     out (channels lock; the answer stays in the stream thread's local `samples` lists),
+    `fanDeliver ss`  the stream thread's `with self._queue_lock:` block: the groups built from the
+                     samples `ss` of the frame and the answers collected so far are put on every queue
+                     subscribed to their channel.
+  Reading a sample (`queue.get` on the queue returned by `stream_sub`) takes no lock of the library and
+  touches none of its state; it appears in the wait-for graph of `Locks.lean` only.
   Mathlib-free, executable (driver: `locks run`).
 -/
 import NxsModel.Config
@@ -43,15 +63,107 @@ def arun (c : Client) (d : Device) : List AOp → Client × Device × List StepO
     let (c2, d2, os) := arun c1 d1 r
     (c2, d2, o :: os)
 
-/-- the two blocks of a `channels_write` call -/
-def writeBlock (divSupported : Bool) (oDiv oEn : Outcome) : List AOp :=
-  if divSupported then [.wDiv oDiv, .wEn oEn] else [.wEn oEn]
+/-- the blocks of a `channels_write` call on a device with `n` channels: none for `n = 0` (the call
+    returns before it takes the channels lock) -/
+def writeBlock (n : Nat) (divSupported : Bool) (oDiv oEn : Outcome) : List AOp :=
+  if n = 0 then [] else if divSupported then [.wDiv oDiv, .wEn oEn] else [.wEn oEn]
+
+/-- the blocks of `ch_enable_all()` / `ch_disable_all()`: one per channel, in channel order -/
+def enableAllBlock (n : Nat) : List AOp := (List.range n).map fun c => .enable [c]
+def disableAllBlock (n : Nat) : List AOp := (List.range n).map fun c => .disable [c]
+
+/-- the blocks of `channels_default_cfg()`: `ch_disable_all()`, then `_ch_divider_default` (one block that
+    sets every requested divider to 0) -/
+def defaultCfgBlock (n : Nat) : List AOp := disableAllBlock n ++ [.divider (List.range n) 0]
 
 /-- the answer of `ch_is_enabled(ch)` -/
 def isEnabled (c : Client) (ch : Nat) : Bool := c.enNow.getD ch false
 
 /-- the answer of `ch_div_get(ch)` -/
 def divGet (c : Client) (ch : Nat) : Int := c.divNow.getD ch 0
+
+/-! ## the subscriber side -/
+
+/-- one decoded stream sample: its channel and an identifying number -/
+structure Smp where
+  chan : Nat
+  val : Nat
+  deriving DecidableEq, Repr
+
+/-- `NxscopeHandler._sub_q` plus the stream thread's local state while it fans a frame out -/
+structure Fan where
+  subs : List (List Nat)        -- per channel the subscribed queue ids, in subscription order
+  nextQ : Nat                   -- id the next queue created by `stream_sub` gets
+  pending : List Bool           -- answers of the enabled checks made so far for the current frame
+  deriving DecidableEq, Repr
+
+/-- right after `connect` -/
+def Fan.init (n : Nat) : Fan := { subs := List.replicate n [], nextQ := 0, pending := [] }
+
+inductive XOp where
+  | cfg (a : AOp)
+  | sub (ch : Nat)
+  | unsub (q : Nat)
+  | fanCheck (ch : Nat)
+  | fanDeliver (ss : List Smp)
+  deriving Repr
+
+/-- what one critical section shows to the outside -/
+structure XOut where
+  cfg : Option StepOut := none            -- a configuration block: frames sent, time, error
+  err : Option Err := none                -- exception raised by a subscriber-side call
+  newQ : Option Nat := none               -- `stream_sub`: the id of the queue returned
+  ans : Option Bool := none               -- `fanCheck`: the answer of `ch_is_enabled`
+  puts : List (Nat × List Nat) := []      -- `fanDeliver`: (queue id, group put on it), in order
+  deriving Repr
+
+structure XState where
+  c : Client
+  d : Device
+  f : Fan
+  deriving Repr
+
+/-- the samples of channel `ch` whose enabled check answered True, in frame order
+    (`samples[data.chan].append(…)` under `if ch_is_enabled(data.chan) is True`) -/
+def group (ss : List Smp) (answers : List Bool) (ch : Nat) : List Nat :=
+  ((ss.zip answers).filter fun p => p.1.chan == ch && p.2).map (·.1.val)
+
+/-- `for chan in range(chmax): if len(samples[chan]) > 0: for que in _sub_q[chan]: que.put(samples[chan])` -/
+def deliver (subs : List (List Nat)) (ss : List Smp) (answers : List Bool) : List (Nat × List Nat) :=
+  (List.range subs.length).flatMap fun ch =>
+    let g := group ss answers ch
+    if g.isEmpty then [] else (subs.getD ch []).map fun q => (q, g)
+
+def xstep (s : XState) : XOp → XState × XOut
+  | .cfg a =>
+    let r := astep s.c s.d a
+    ({ s with c := r.1, d := r.2.1 }, { cfg := some r.2.2 })
+  | .sub ch =>
+    if ch < s.f.subs.length then
+      ({ s with f := { s.f with subs := s.f.subs.set ch (s.f.subs.getD ch [] ++ [s.f.nextQ]), nextQ := s.f.nextQ + 1 } },
+       { newQ := some s.f.nextQ })
+    else (s, { err := some .indexError })
+  | .unsub q => ({ s with f := { s.f with subs := s.f.subs.map fun l => l.erase q } }, {})
+  | .fanCheck ch =>
+    ({ s with f := { s.f with pending := s.f.pending ++ [isEnabled s.c ch] } }, { ans := some (isEnabled s.c ch) })
+  | .fanDeliver ss =>
+    ({ s with f := { s.f with pending := [] } }, { puts := deliver s.f.subs ss s.f.pending })
+
+def xrun (s : XState) : List XOp → XState × List XOut
+  | [] => (s, [])
+  | op :: r =>
+    let (s1, o) := xstep s op
+    let (s2, os) := xrun s1 r
+    (s2, o :: os)
+
+/-- state right after a successful connect to device `d` -/
+def XState.init (d : Device) (flags : Nat) : XState := ⟨Client.init d flags, d, Fan.init d.en.length⟩
+
+/-- the configuration block an `XOp` is, if any (the stream thread's enabled check is a `query`) -/
+def cfgOf : XOp → Option AOp
+  | .cfg a => some a
+  | .fanCheck _ => some .query
+  | _ => none
 
 end LockSteps
 end Nxs
